@@ -16,10 +16,28 @@
 //!                                type): through `decode_consensus` and `params-consensus` when the
 //!                                miniscript is consensus-valid in the context, and through
 //!                                `params-max` for EVERY accepted miniscript that is not of base W
+//!                                and through `sane` (`Miniscript::decode`) for every miniscript that
+//!                                passes `validate(&Ctx::SANE)` and has no pk_h / raw_pkh (with one,
+//!                                `decode` refuses its own encoding: counted as an observation)
 //!   J canon <ctx[:entry]> <hex> <ERR | re-encoded hex>   accepted ⇒ re-encodes to the input
+//!   J canon / J dsize <ctx>:clone | <ctx>:again   USED objects: the encoding and `script_size()` of a
+//!                                `clone()` and of the original after it has been encoded, sized,
+//!                                lexed and validated once equal the first encoding
 //!   J tapfull <ast> <hex> <decoded>   Taproot over FULL keys: script = encoding of the x-only
 //!                                translation, decoding returns that translation
-//! MALFORMED stream — mutations of valid scripts, non-minimal pushes / numbers / verifies,
+//! Designated corpora (all unsliced, quick tier): own `corpus` (script-number boundaries of after /
+//! older / thresh k / multi k,n / multi_a k,n incl. 16|17), `ast::dimension_corpus`, the FULL
+//! `ast::wrapper_towers`, `verify_towers` (`v:` over every fragment with and without a free verify,
+//! over n: j: d: towers and over casts l: u: t:, in seven embeddings), `templates` (one minimal
+//! script per fragment), and `refused_corpus`: miniscripts `from_ast` refuses TODAY for exactly one
+//! reason each (lock 0 / bit 31, thresh k = 0 / k > n, one type error per combinator, each context
+//! rule, each size limit + 1, tree height 403) - counted while refused, pushed through the whole
+//! valid stream the day one is accepted.
+//! MALFORMED stream — every fragment template with each instruction deleted (`del1`) and each of
+//! VERIFY / 0NOTEQUAL / 1 / EQUAL inserted at every boundary (`ins1`), every 20/32/33/65-byte push
+//! replaced by a registered string of each other length class (`swaplen`), every opcode with a
+//! VERIFY twin fused / split, ALL 1-byte scripts, all 2- and 3-opcode scripts over the decoder's
+//! alphabet, pushes of 255 / 520 / 521 bytes; mutations of valid scripts, non-minimal pushes / numbers / verifies,
 //! key↔hash swaps, truncation, trailing garbage, deep nesting, huge multi: C lex, C decode,
 //! C decodep (both parameter sets), `J canon` for all four entry points, `J lexcanon`
 //! (accepted ⇒ canonical serialisation of its tokens) and `J nopanic` (`catch_unwind`).
@@ -317,6 +335,18 @@ fn emit_bytes<Pk: CKey, Ctx: ScriptContext<Key = Pk>>(out: &mut Out, u: &Univers
     if dm.reenc.is_some() && d.reenc.is_none() { out.count(&format!("{} {}: accepted under MAX only", tag.split('/').next().unwrap_or(tag), ctx.name())); }
 }
 
+fn has_key_hash(n: &Node) -> bool {
+    use Node::*;
+    match n {
+        PkH(_) | RawPkH(_) => true,
+        Alt(x) | Swap(x) | Check(x) | DupIf(x) | Verify(x) | NonZero(x) | ZeroNotEqual(x) => has_key_hash(x),
+        AndV(a, b) | AndB(a, b) | OrB(a, b) | OrD(a, b) | OrC(a, b) | OrI(a, b) => has_key_hash(a) || has_key_hash(b),
+        AndOr(a, b, c) => has_key_hash(a) || has_key_hash(b) || has_key_hash(c),
+        Thresh(_, xs) => xs.iter().any(has_key_hash),
+        _ => false,
+    }
+}
+
 /// the valid stream for one AST that `from_ast` accepts (any base type)
 fn emit_valid<Pk: CKey, Ctx: ScriptContext<Key = Pk>>(out: &mut Out, u: &Universe, ctx: CtxK, node: &Node, pool: &mut Vec<Vec<u8>>) {
     let ms = match ast::to_ms::<Pk, Ctx>(node) { Ok(m) => m, Err(_) => { out.count("valid: from_ast rejects (not emitted)"); return; } };
@@ -368,6 +398,29 @@ fn emit_valid<Pk: CKey, Ctx: ScriptContext<Key = Pk>>(out: &mut Out, u: &Univers
     let ds = lib_decode::<Pk, Ctx>(u, &bytes, Mode::Sane);
     let verdict = match &ds.reenc { Some(r) => script_hex(r), None => "ERR".to_string() };
     out.line(&format!("J canon {}:sane {} {}", ctx.name(), h, verdict), "ok");
+    // the default entry point `Miniscript::decode` (Ctx::SANE): a miniscript that is itself sane
+    // must come back through it
+    // (scope: the decoder returns `expr_raw_pkh` for `pk_h`, which Ctx::SANE forbids, so the SANE
+    // entry point refuses the encoding of every sane miniscript containing pk_h / raw_pkh - by
+    // design of the parameter set, not a claim of the statement: an observation unless it decodes)
+    if ms.validate(&Ctx::SANE).is_ok() {
+        if !has_key_hash(node) || ds.reenc.is_some() {
+            rt(out, "sane", &ds);
+            out.count(&format!("valid {}: sane, round trip through Miniscript::decode judged", ctx.name()));
+        } else {
+            out.count(&format!("observation: {} Miniscript::decode (SANE) refuses the encoding of a sane miniscript with pk_h / raw_pkh", ctx.name()));
+            out.note("observation-sane-pkh", format!("e.g. {} {} -> {}", ctx.name(), w, ds.wire));
+        }
+    }
+    // USED objects: a deep clone, and the object after encode() / script_size() were called on it,
+    // must encode to the same bytes and predict the same size
+    {
+        let c = ms.clone();
+        out.line(&format!("J canon {}:clone {} {}", ctx.name(), h, script_hex(&c.encode().into_bytes())), "ok");
+        out.line(&format!("J dsize {}:clone {} {}", ctx.name(), h, c.script_size()), "ok");
+        out.line(&format!("J canon {}:again {} {}", ctx.name(), h, script_hex(&ms.encode().into_bytes())), "ok");
+        out.line(&format!("J dsize {}:again {} {}", ctx.name(), h, ms.script_size()), "ok");
+    }
     emit_dsize(out, ctx, "decode_consensus", &h, bytes.len(), &d);
     emit_dsize(out, ctx, "sane", &h, bytes.len(), &ds);
     emit_dsize(out, ctx, "params-consensus", &h, bytes.len(), &dc);
@@ -393,7 +446,9 @@ fn emit_tapfull(out: &mut Out, u: &Universe, node: &Node) {
 fn cross_sources(ctx: CtxK) -> Vec<Node> {
     let mut v = seeds(ctx);
     let dim = ast::dimension_corpus(ctx);
-    let n = dim.len();
+    // the wrapper towers are appended last; the blocks meant here sit just before them
+    let n = dim.len().saturating_sub(ast::wrapper_towers_thin(ctx).len());
+    let dim = &dim[..n];
     // a thin regular slice plus the tail (raw key hashes; in Bare / Legacy the uncompressed-key block)
     v.extend(dim.iter().step_by(6).cloned());
     v.extend(dim[n.saturating_sub(14)..].iter().cloned());
@@ -687,6 +742,18 @@ fn mutations(b: &[u8], rng: &mut Rng, u: &Universe, n_random: usize) -> Vec<(Str
                 let mut w = vec![op]; w.extend_from_slice(a);
                 v.push(("swap20".into(), splice(b, s, e, &w)));
             }
+            if [20usize, 32, 33, 65].contains(&data.len()) {
+                // a registered string of EVERY OTHER length class in this key / hash position
+                for other in [20usize, 32, 33, 65] {
+                    if other == data.len() { continue; }
+                    let mut alts: Vec<&Vec<u8>> = u.known.iter().filter(|x| x.len() == other).collect();
+                    alts.sort();
+                    if alts.is_empty() { continue; }
+                    let a = alts[rng.below(alts.len())];
+                    let mut w = vec![other as u8]; w.extend_from_slice(a);
+                    v.push((format!("swaplen/{}to{}", data.len(), other), splice(b, s, e, &w)));
+                }
+            }
             if data.len() == 33 || data.len() == 65 {
                 let mut alts: Vec<&Vec<u8>> = u.known.iter().filter(|x| x.len() == data.len() && &x[..] != data).collect();
                 alts.sort();
@@ -710,6 +777,9 @@ fn mutations(b: &[u8], rng: &mut Rng, u: &Universe, n_random: usize) -> Vec<(Str
                 0xaf => v.push(("split-verify".into(), splice(b, s, e, &[0xae, 0x69]))),
                 0x9d => v.push(("split-verify-numequal".into(), splice(b, s, e, &[0x9c, 0x69]))),
                 0x87 => v.push(("fuse-verify".into(), splice(b, s, e, &[0x88]))),
+                0xac => v.push(("fuse-verify".into(), splice(b, s, e, &[0xad]))),
+                0xae => v.push(("fuse-verify".into(), splice(b, s, e, &[0xaf]))),
+                0x9c => v.push(("fuse-verify".into(), splice(b, s, e, &[0x9d]))),
                 0x92 => v.push(("dup-0notequal".into(), splice(b, s, e, &[0x92, 0x92]))),
                 0x69 => v.push(("dup-verify".into(), splice(b, s, e, &[0x69, 0x69]))),
                 0x9a => v.push(("and-or".into(), splice(b, s, e, &[0x9b]))),
@@ -721,6 +791,141 @@ fn mutations(b: &[u8], rng: &mut Rng, u: &Universe, n_random: usize) -> Vec<(Str
         }
     }
     v
+}
+
+/// every way to shorten a script by ONE instruction and to extend it by ONE opcode (from the
+/// opcodes that start or end a template) at every instruction boundary
+fn one_opcode_edits(b: &[u8]) -> Vec<(String, Vec<u8>)> {
+    let mut v: Vec<(String, Vec<u8>)> = vec![];
+    let ins = instr_bounds(b);
+    for &(s, e) in &ins { v.push(("del1".into(), splice(b, s, e, &[]))); }
+    let mut cuts: Vec<usize> = ins.iter().map(|x| x.0).collect();
+    cuts.push(b.len());
+    for &c in &cuts {
+        for op in [0x69u8, 0x92, 0x51, 0x87] {
+            v.push(("ins1".into(), splice(b, c, c, &[op])));
+        }
+    }
+    v
+}
+
+/// one minimal B script per fragment template (the sources of the systematic raw-channel edits)
+fn templates(ctx: CtxK) -> Vec<Node> {
+    use Node::*;
+    let ks = ast::ctx_keys(ctx, 10);
+    let k = |i: usize| ks[i % ks.len()];
+    let bx = |n: Node| Box::new(n);
+    let pk = |i: usize| Check(bx(PkK(k(i))));
+    let v = |x: Node| Verify(bx(x));
+    let mut r = vec![
+        pk(0), Check(bx(PkH(k(1)))), Check(bx(RawPkH(k(0)))),
+        AndV(bx(v(pk(0))), bx(Older(10))), AndV(bx(v(pk(0))), bx(After(1000))),
+        AndB(bx(pk(0)), bx(Alt(bx(pk(1))))), AndB(bx(pk(0)), bx(Swap(bx(pk(1))))),
+        OrB(bx(pk(0)), bx(Alt(bx(pk(1))))), OrD(bx(pk(0)), bx(pk(1))),
+        AndV(bx(OrC(bx(pk(0)), bx(v(pk(1))))), bx(True)), OrI(bx(pk(0)), bx(pk(1))),
+        AndOr(bx(pk(0)), bx(pk(1)), bx(pk(2))), NonZero(bx(pk(0))), ZeroNotEqual(bx(pk(0))),
+        DupIf(bx(v(True))), AndV(bx(v(pk(0))), bx(True)), OrI(bx(False), bx(pk(0))),
+        Thresh(2, vec![pk(0), Swap(bx(pk(1))), Alt(bx(pk(2)))]),
+    ];
+    for kind in HK::ALL { r.push(AndV(bx(v(pk(0))), bx(Hash(kind, 1)))); r.push(AndV(bx(v(Hash(kind, 2))), bx(pk(0)))); }
+    if ctx == CtxK::Tap { r.push(MultiA(2, vec![k(0), k(1), k(2)])); r.push(AndV(bx(v(MultiA(1, vec![k(0), k(1)]))), bx(pk(2)))); }
+    else { r.push(Multi(2, vec![k(0), k(1), k(2)])); r.push(AndV(bx(v(Multi(1, vec![k(0), k(1)]))), bx(pk(2)))); }
+    r
+}
+
+/// R5: `v:` over every fragment with and without a free verify, over wrappers whose accounting
+/// depends on the child, and combinators over the casts `t:` `l:` `u:` - each inside a B script
+fn verify_towers(ctx: CtxK) -> Vec<Node> {
+    use Node::*;
+    let ks = ast::ctx_keys(ctx, 10);
+    let k = |i: usize| ks[i % ks.len()];
+    let bx = |n: Node| Box::new(n);
+    let pk = |i: usize| Check(bx(PkK(k(i))));
+    let v = |x: Node| Verify(bx(x));
+    let m = if ctx == CtxK::Tap { MultiA(2, vec![k(0), k(1), k(2)]) } else { Multi(2, vec![k(0), k(1), k(2)]) };
+    let th = Thresh(2, vec![pk(0), Swap(bx(pk(1))), Alt(bx(pk(2)))]);
+    let mut inner: Vec<Node> = vec![
+        pk(0), Check(bx(PkH(k(1)))), m.clone(), th.clone(), After(100), Older(10), True,
+        ZeroNotEqual(bx(pk(0))), ZeroNotEqual(bx(m.clone())), ZeroNotEqual(bx(th.clone())), ZeroNotEqual(bx(ZeroNotEqual(bx(pk(0))))),
+        NonZero(bx(pk(0))), NonZero(bx(ZeroNotEqual(bx(pk(0))))), NonZero(bx(m.clone())),
+        DupIf(bx(v(True))), DupIf(bx(v(pk(0)))), DupIf(bx(v(m.clone()))), DupIf(bx(v(Older(10)))),
+        AndB(bx(pk(0)), bx(Alt(bx(pk(1))))), AndB(bx(pk(0)), bx(Alt(bx(Check(bx(PkH(k(1)))))))), AndB(bx(pk(0)), bx(Swap(bx(m.clone())))),
+        OrB(bx(pk(0)), bx(Alt(bx(pk(1))))), OrD(bx(pk(0)), bx(pk(1))), OrD(bx(pk(0)), bx(m.clone())), OrD(bx(m.clone()), bx(th.clone())),
+        OrI(bx(pk(0)), bx(pk(1))), OrI(bx(False), bx(pk(0))), OrI(bx(pk(0)), bx(False)), OrI(bx(m.clone()), bx(False)),
+        AndOr(bx(pk(0)), bx(pk(1)), bx(pk(2))), AndOr(bx(pk(0)), bx(m.clone()), bx(th.clone())),
+        AndV(bx(v(pk(0))), bx(pk(1))), AndV(bx(v(pk(0))), bx(m.clone())), AndV(bx(v(m.clone())), bx(True)), AndV(bx(v(pk(0))), bx(True)),
+        AndV(bx(OrC(bx(pk(0)), bx(v(pk(1))))), bx(True)), AndV(bx(OrC(bx(pk(0)), bx(v(m.clone())))), bx(pk(2))),
+    ];
+    for kind in HK::ALL { inner.push(Hash(kind, 1)); inner.push(ZeroNotEqual(bx(Hash(kind, 1)))); inner.push(NonZero(bx(Hash(kind, 2)))); }
+    let mut r = vec![];
+    for x in inner {
+        r.push(AndV(bx(v(x.clone())), bx(pk(5))));
+        r.push(AndV(bx(v(x.clone())), bx(True)));                              // t:v:X
+        r.push(AndV(bx(v(pk(5))), bx(x.clone())));
+        r.push(OrI(bx(False), bx(AndV(bx(v(x.clone())), bx(pk(5))))));        // l:and_v(v:X,pk)
+        r.push(OrD(bx(pk(6)), bx(AndV(bx(v(x.clone())), bx(True)))));
+        r.push(AndV(bx(v(AndV(bx(v(x.clone())), bx(pk(5))))), bx(pk(6))));   // v:and_v(v:X,pk)
+        r.push(DupIf(bx(v(x))));                                              // d:v:X
+    }
+    r
+}
+
+/// R2: designated inputs that the library refuses TODAY, each for exactly one reason.  They go
+/// through `emit_valid`, which writes its judged lines as soon as `from_ast` accepts one.
+fn refused_corpus(ctx: CtxK) -> Vec<(&'static str, Node)> {
+    use Node::*;
+    let ks = ast::ctx_keys(ctx, 10);
+    let k = |i: usize| ks[i % ks.len()];
+    let bx = |n: Node| Box::new(n);
+    let pk = |i: usize| Check(bx(PkK(k(i))));
+    let v = |x: Node| Verify(bx(x));
+    let tap = ctx == CtxK::Tap;
+    let mut r: Vec<(&'static str, Node)> = vec![
+        ("lock-zero", After(0)), ("lock-zero", Older(0)), ("lock-bit31", After(0x8000_0000)), ("lock-bit31", Older(0x8000_0000)),
+        ("thresh-k0", Thresh(0, vec![pk(0), Swap(bx(pk(1)))])), ("thresh-k>n", Thresh(3, vec![pk(0), Swap(bx(pk(1)))])),
+        ("type: and_v(B,B)", AndV(bx(pk(0)), bx(pk(1)))), ("type: and_b(B,B)", AndB(bx(pk(0)), bx(pk(1)))),
+        ("type: or_b(B,B)", OrB(bx(pk(0)), bx(pk(1)))), ("type: v:V", v(v(pk(0)))), ("type: c:B", Check(bx(pk(0)))),
+        ("type: or_d(non-d)", OrD(bx(After(10)), bx(pk(0)))), ("type: thresh W first", Thresh(1, vec![Swap(bx(pk(0)))])),
+        ("type: thresh B second", Thresh(1, vec![pk(0), pk(1)])), ("type: j:z", NonZero(bx(After(10)))),
+        ("type: d:B", DupIf(bx(pk(0)))), ("type: s:Bz", Swap(bx(After(10)))), ("type: andor(non-du)", AndOr(bx(After(10)), bx(pk(0)), bx(pk(1)))),
+    ];
+    if tap {
+        r.push(("ctx: multi in tap", Multi(1, vec![k(0), k(1)])));
+        r.push(("ctx: multi_a n=1000", MultiA(1, (0..1000).map(k).collect())));
+        r.push(("ctx: multi_a k=0", MultiA(0, vec![k(0)])));
+    } else {
+        r.push(("ctx: multi_a outside tap", MultiA(1, vec![k(0), k(1)])));
+        r.push(("ctx: multi n=21", Multi(1, (0..21).map(k).collect())));
+        r.push(("ctx: multi k=0", Multi(0, vec![k(0)])));
+        r.push(("ctx: multi k>n", Multi(3, vec![k(0), k(1)])));
+    }
+    if matches!(ctx, CtxK::Segwitv0) {
+        r.push(("ctx: uncompressed key", Check(bx(PkK(100)))));
+        r.push(("ctx: uncompressed key in pk_h", Check(bx(PkH(100)))));
+        r.push(("ctx: uncompressed key in multi", Multi(1, vec![0, 100])));
+    }
+    // script-size ceilings + 1 (and_v chain padded with n:), recursion depth 403
+    let chain = |target: usize| -> Node {
+        let n = (target - 35) / 35 - 1;
+        let j = target - 35 * n - 35;
+        let mut last = pk(n);
+        for _ in 0..j { last = ZeroNotEqual(bx(last)); }
+        let mut acc = last;
+        for i in (0..n).rev() { acc = AndV(bx(v(pk(i))), bx(acc)); }
+        acc
+    };
+    match ctx {
+        CtxK::Legacy => r.push(("limit: 521 bytes", chain(521))),
+        CtxK::Segwitv0 => r.push(("limit: 3601 bytes", chain(3601))),
+        CtxK::Bare => r.push(("limit: 10001 bytes", chain(10001))),
+        CtxK::Tap => {}
+    }
+    if tap {
+        let mut x = pk(0);
+        for _ in 0..402 { x = ZeroNotEqual(bx(x)); }
+        r.push(("limit: tree height 403", x));
+    }
+    r
 }
 
 /// hand-built byte strings
@@ -790,6 +995,19 @@ fn handmade(ctx: CtxK) -> Vec<(String, Vec<u8>)> {
             v.push(("multi_a-nochecksig".into(), t));
             let mut t = s.clone(); let l2 = 2 * key(0).len() + 1; t[l2] = 0xac;
             v.push(("multi_a-twochecksig".into(), t));
+        }
+    }
+    // every script of length 1, every 2-opcode script over the template alphabet, pushes at 255/256
+    // and 520/521 bytes
+    for b0 in 0u16..256 { v.push(("len1".into(), vec![b0 as u8])); }
+    {
+        let alpha = [0x00u8, 0x51, 0x69, 0x87, 0x88, 0xac, 0xad, 0x92, 0x68, 0x63, 0xb1, 0xb2];
+        for a in alpha { for b in alpha { v.push(("len2".into(), vec![a, b])); } }
+        for a in alpha { for b in [0x51u8, 0xac, 0x87] { v.push(("len3".into(), vec![0x51, a, b])); } }
+        let mut s = vec![0x4c, 0xff]; s.extend(std::iter::repeat(0x33).take(255)); s.push(0xac); v.push(("push255".into(), s));
+        for n in [520usize, 521] {
+            let mut s = vec![0x4d, (n & 0xff) as u8, (n >> 8) as u8]; s.extend(std::iter::repeat(0x44).take(n)); s.push(0x87);
+            v.push((format!("push{}", n), s));
         }
     }
     // minimal PUSHDATA1 / PUSHDATA2 and odd-length direct pushes (no key / hash / number length),
@@ -870,13 +1088,41 @@ fn run_ctx<Pk: CKey, Ctx: ScriptContext<Key = Pk>>(out: &mut Out, u: &Universe, 
     }
     // 3. corpus (own) + the shared dimension corpus (raw key hashes through from_ast, uncompressed
     //    keys in every position, mixed-encoding multi / sortedmulti, one-child thresholds, ...)
-    for node in corpus(ctx).into_iter().chain(ast::dimension_corpus(ctx)) {
+    //    + the FULL set of wrapper towers (`dimension_corpus` carries only a thin slice of them)
+    let mut seen: std::collections::HashSet<String> = std::collections::HashSet::new();
+    for node in corpus(ctx).into_iter().chain(ast::dimension_corpus(ctx)).chain(ast::wrapper_towers(ctx)) {
+        if !seen.insert(node.wire()) { continue; }
         n += 1;
         node.count_frags(out);
         emit_valid::<Pk, Ctx>(out, u, ctx, &node, &mut pool);
     }
+    out.count(&format!("corpus {}: {} distinct designated scripts (own + dimension corpus + all wrapper towers)", ctx.name(), seen.len()));
+    // 3b. `v:` towers / combinators over casts (size accounting that depends on the child)
+    for node in verify_towers(ctx) {
+        n += 1;
+        node.count_frags(out);
+        emit_valid::<Pk, Ctx>(out, u, ctx, &node, &mut pool);
+    }
+    // 3c. refused-today corpus: judged the day `from_ast` lets one through
+    for (why, node) in refused_corpus(ctx) {
+        n += 1;
+        match ast::to_ms::<Pk, Ctx>(&node) {
+            Err(_) => out.count(&format!("refused-today {}: still refused ({})", ctx.name(), why)),
+            Ok(_) => { out.count(&format!("refused-today {}: NOW ACCEPTED ({}) - judged", ctx.name(), why)); emit_valid::<Pk, Ctx>(out, u, ctx, &node, &mut pool); }
+        }
+    }
     // 4. malformed: mutations of the seeds and of random pool members
     let mut sources: Vec<Vec<u8>> = vec![];
+    // every fragment template: all structured mutations AND every one-opcode truncation / extension
+    for node in templates(ctx) {
+        n += 1;
+        if let Ok(ms) = ast::to_ms::<Pk, Ctx>(&node) {
+            let b = ms.encode().into_bytes();
+            emit_valid::<Pk, Ctx>(out, u, ctx, &node, &mut pool);
+            for (tag, m) in one_opcode_edits(&b) { n += 1; emit_bytes::<Pk, Ctx>(out, u, ctx, &m, &tag); }
+            sources.push(b);
+        }
+    }
     for node in seeds(ctx) {
         n += 1;
         let before = pool.len();
@@ -944,5 +1190,5 @@ pub fn run(out: &mut Out, thorough: bool, seed: u64) {
         }
     }
     out.note("distinct_nontrivial", n.to_string());
-    out.note("domain", "valid: all enumerated fragments (depth 3/4, quota-sampled) in 4 contexts + random large + corpus (numbers at script-number boundaries, all hash kinds, pk_h, thresh n<=40, multi n<=20, multi_a n<=999, and_v re-association cases); malformed: 1-3 byte edits, opcode edits, instruction delete/dup/swap, truncation, leading/trailing garbage, PUSHDATA1/2/4 for short data, padded/negative numbers, OP_n as data push, split/fused *VERIFY, key<->hash swaps, bad key prefixes, nesting depth 399..2000, multi/multi_a/thresh with k,n out of range".into());
+    out.note("domain", "valid: all enumerated fragments (depth 3/4, quota-sampled) in 4 contexts + random large + corpus (numbers at script-number boundaries, all hash kinds, pk_h, thresh n<=40, multi n<=20, multi_a n<=999, and_v re-association cases) + dimension corpus + ALL wrapper towers + v: towers over every fragment / cast (7 embeddings) + one template per fragment, each through encode, script_size, lex, decode_consensus, decode (SANE; judged when sane and free of key hashes), decode_with_validation_params CONSENSUS and MAX, and again on a clone and on the used object; refused-today corpus (locks 0 / bit 31, thresh k=0 / k>n, type errors, context rules, limits + 1, height 403) judged if accepted; malformed: every template with one instruction deleted / one opcode inserted, pushes swapped between the 20/32/33/65 length classes, all 1-byte scripts, 2- and 3-opcode scripts, pushes of 255/520/521 bytes, 1-3 byte edits, opcode edits, instruction delete/dup/swap, truncation, leading/trailing garbage, PUSHDATA1/2/4 for short data, padded/negative numbers, OP_n as data push, split/fused *VERIFY, key<->hash swaps, bad key prefixes, nesting depth 399..2000, multi/multi_a/thresh with k,n out of range".into());
 }
